@@ -8,6 +8,7 @@ import (
 	"io/fs"
 	"os"
 	"path/filepath"
+	"strings"
 	"syscall"
 
 	"github.com/oklog/ulid/v2"
@@ -76,7 +77,57 @@ func (bs *filesystemPartStore) Start(ctx context.Context) error {
 	if err := bs.ValidatedLifecycle.Start(ctx); err != nil {
 		return err
 	}
-	return bs.ensureRootDir()
+	if err := bs.ensureRootDir(); err != nil {
+		return err
+	}
+	return bs.recoverInterruptedTransactions()
+}
+
+// recoverInterruptedTransactions repairs what a process that was killed in the
+// middle of a transaction left behind. PutPart and DeletePart move files in
+// their pre-commit hooks, i.e. before the database commit: a part that is
+// overwritten or deleted is renamed to "<part>.txbackup.<id>" and only removed
+// after the commit. If the process dies in between, the database rolls back
+// and still references the part, so its backup has to be moved back. (If the
+// process died after the commit instead, the restored file is unreferenced
+// and the garbage collector removes it.) Temp files of PutPart that were never
+// published belong to no transaction anymore and are deleted.
+func (bs *filesystemPartStore) recoverInterruptedTransactions() error {
+	dirEntries, err := os.ReadDir(bs.root)
+	if err != nil {
+		return err
+	}
+	for _, dirEntry := range dirEntries {
+		if dirEntry.IsDir() {
+			continue
+		}
+		name := dirEntry.Name()
+		if strings.HasPrefix(name, ".") && strings.HasSuffix(name, ".tmp") {
+			if err := os.Remove(filepath.Join(bs.root, name)); err != nil && !errors.Is(err, fs.ErrNotExist) {
+				return err
+			}
+			continue
+		}
+		partFilename, _, isBackup := strings.Cut(name, ".txbackup.")
+		if !isBackup {
+			continue
+		}
+		if _, ok := bs.tryGetPartIdFromFilename(partFilename); !ok {
+			continue
+		}
+		backupName := filepath.Join(bs.root, name)
+		filename := filepath.Join(bs.root, partFilename)
+		if _, err := os.Stat(filename); errors.Is(err, fs.ErrNotExist) {
+			if err := os.Rename(backupName, filename); err != nil {
+				return err
+			}
+		} else if err != nil {
+			return err
+		} else if err := os.Remove(backupName); err != nil && !errors.Is(err, fs.ErrNotExist) {
+			return err
+		}
+	}
+	return nil
 }
 
 func (bs *filesystemPartStore) PutPart(ctx context.Context, tx database.Tx, partId partstore.PartId, reader io.Reader) error {
